@@ -8,7 +8,7 @@ Import ListNotations.
 Open Scope string_scope.
 
 Lemma skel_tryCommitPatch_ok : skel_tryCommitPatch =
-  [Call "adjust"; Call "buildRuleList"; Assign "ruleList" ":= buildRuleList(patch)"; IfE "err != nil" [Ret] []; Call "trim"; Call "savePatch"; IfE "err != nil" [Ret] []; Call "commit"; Assign "m.ruleList" "= ruleList"; Ret].
+  [Call "adjust"; Call "buildRuleList"; Assign "ruleList" ":= buildRuleList(patch)"; IfE "err != nil" [Call "adjust"; Ret] []; Call "trim"; Call "savePatch"; IfE "err != nil" [Call "adjust"; Ret] []; Call "commit"; Assign "m.ruleList" "= ruleList"; Ret].
 Proof. reflexivity. Qed.
 
 Lemma skel_savePatch_ok : skel_savePatch =
@@ -104,7 +104,7 @@ Lemma body_checkApplyRules_ok : body_checkApplyRules =
 Proof. reflexivity. Qed.
 
 Lemma body_buildRuleList_ok : body_buildRuleList =
-  ["var points []splitPoint"; "rules.iterateRules(func(r *Rule) { points = append(points, splitPoint{ typ: tStart, key: r.StartKey, rule: r, }) if len(r.EndKey) > 0 { points = append(points, splitPoint{ typ: tEnd, key: r.EndKey, rule: r, }) } })"; "if len(points) == 0 { return ruleList{}, errs.ErrBuildRuleList.FastGenByArgs(""no rule left"") }"; "sort.Slice(points, func(i, j int) bool { return bytes.Compare(points[i].key, points[j].key) < 0 })"; "var rl ruleList"; "var sr sortedRules"; "for i, p := range points { switch p.typ { case tStart: sr.insertRule(p.rule) case tEnd: sr.deleteRule(p.rule) } if i == len(points)-1 || !bytes.Equal(p.key, points[i+1].key) { var endKey []byte if i != len(points)-1 { endKey = points[i+1].key } rr := sr.rules if len(rr) == 0 { return ruleList{}, errs.ErrBuildRuleList.FastGenByArgs(fmt.Sprintf(""no rule for range {%s, %s}"", strings.ToUpper(hex.EncodeToString(p.key)), strings.ToUpper(hex.EncodeToString(endKey)))) } if i != len(points)-1 { rr = append(rr[:0:0], rr...) } arr := prepareRulesForApply(rr) err := checkApplyRules(arr) if err != nil { return ruleList{}, errs.ErrBuildRuleList.FastGenByArgs(fmt.Sprintf(""%s for range {%s, %s}"", err, strings.ToUpper(hex.EncodeToString(p.key)), strings.ToUpper(hex.EncodeToString(endKey)))) } rl.ranges = append(rl.ranges, rangeRules{ startKey: p.key, rules: rr, applyRules: arr, }) } }"; "return rl, nil"].
+  ["var points []splitPoint"; "rules.iterateRules(func(r *Rule) { points = append(points, splitPoint{ typ: tStart, key: r.StartKey, rule: r, }) if len(r.EndKey) > 0 { points = append(points, splitPoint{ typ: tEnd, key: r.EndKey, rule: r, }) } })"; "if len(points) == 0 { return ruleList{}, errs.ErrBuildRuleList.FastGenByArgs(""no rule left"") }"; "sort.Slice(points, func(i, j int) bool { return bytes.Compare(points[i].key, points[j].key) < 0 })"; "if len(points[0].key) > 0 { return ruleList{}, errs.ErrBuildRuleList.FastGenByArgs(fmt.Sprintf(""no rule for range {%s, %s}"", """", strings.ToUpper(hex.EncodeToString(points[0].key)))) }"; "var rl ruleList"; "var sr sortedRules"; "for i, p := range points { switch p.typ { case tStart: sr.insertRule(p.rule) case tEnd: sr.deleteRule(p.rule) } if i == len(points)-1 || !bytes.Equal(p.key, points[i+1].key) { var endKey []byte if i != len(points)-1 { endKey = points[i+1].key } rr := sr.rules if len(rr) == 0 { return ruleList{}, errs.ErrBuildRuleList.FastGenByArgs(fmt.Sprintf(""no rule for range {%s, %s}"", strings.ToUpper(hex.EncodeToString(p.key)), strings.ToUpper(hex.EncodeToString(endKey)))) } if i != len(points)-1 { rr = append(rr[:0:0], rr...) } arr := prepareRulesForApply(rr) err := checkApplyRules(arr) if err != nil { return ruleList{}, errs.ErrBuildRuleList.FastGenByArgs(fmt.Sprintf(""%s for range {%s, %s}"", err, strings.ToUpper(hex.EncodeToString(p.key)), strings.ToUpper(hex.EncodeToString(endKey)))) } rl.ranges = append(rl.ranges, rangeRules{ startKey: p.key, rules: rr, applyRules: arr, }) } }"; "return rl, nil"].
 Proof. reflexivity. Qed.
 
 Lemma body_ruleList_getSplitKeys_ok : body_ruleList_getSplitKeys =
